@@ -464,7 +464,7 @@ def run_bounded(ctx: Ctx) -> Report:
     small = [it for it in allitems if it[0] <= 8]
     csize = max(1, min(200, len(small) // (ctx.jobs * 8) + 1))
     chunks = big + [small[i:i + csize] for i in range(0, len(small), csize)]
-    if ctx.jobs > 1:
+    if ctx.jobs > 1 and len(allitems) > 4000:      # the quick tier is ~2 s of work: forking costs more than it saves
         with mp.get_context("fork").Pool(ctx.jobs, initializer=_init_worker) as pool:
             results = pool.map(_work, chunks, chunksize=1)
     else:
